@@ -710,6 +710,66 @@ func c16Misc(ctx *run.Ctx) {
 			cc.Viol("", "helper.Field on a non-struct type returned no error", nil)
 		}
 	})
+	// Special values and other element types for the pointwise helpers whose
+	// uniform cases use ordinary numbers only.
+	ctx.Case("special-values", func(cc *run.Case) {
+		nan, negz := math.NaN(), math.Copysign(0, -1)
+		xs := []float64{3, nan, -2, negz, 0, math.Inf(1), math.Inf(-1), nan, 1e-300, -1e-300}
+		bits := func(v []float64) []uint64 {
+			out := make([]uint64, len(v))
+			for i, x := range v {
+				out[i] = math.Float64bits(x)
+				if x != x {
+					out[i] = 0x7ff8000000000001
+				}
+			}
+			return out
+		}
+		wantP, wantN := make([]float64, len(xs)), make([]float64, len(xs))
+		for i, x := range xs {
+			if x > 0 {
+				wantP[i] = x
+			}
+			if x < 0 {
+				wantN[i] = x
+			}
+		}
+		if got := helper.ChanToSlice(helper.KeepPositives(helper.SliceToChan(xs))); !eqSlice(bits(got), bits(wantP)) {
+			cc.Viol("", fmt.Sprintf("KeepPositives(%v) = %v, want %v (everything that is not above zero becomes 0)", xs, got, wantP), nil)
+			return
+		}
+		if got := helper.ChanToSlice(helper.KeepNegatives(helper.SliceToChan(xs))); !eqSlice(bits(got), bits(wantN)) {
+			cc.Viol("", fmt.Sprintf("KeepNegatives(%v) = %v, want %v (everything that is not below zero becomes +0)", xs, got, wantN), nil)
+			return
+		}
+		// RoundDigits in other element types: integers are already whole, float32
+		// rounds like the float64 computation RoundDigit documents
+		for d := 0; d <= 4; d++ {
+			i32 := []int32{0, 7, -7, 512, 30000000, -30000000, math.MaxInt32, math.MinInt32}
+			if got := helper.ChanToSlice(helper.RoundDigits(helper.SliceToChan(i32), d)); !eqSlice(got, i32) {
+				cc.Viol("", fmt.Sprintf("RoundDigits[int32](%v, %d) = %v: whole numbers must stay as they are", i32, d, got), nil)
+				return
+			}
+			i16 := []int16{0, 5, -5, 512, 32767, -32768}
+			if got := helper.ChanToSlice(helper.RoundDigits(helper.SliceToChan(i16), d)); !eqSlice(got, i16) {
+				cc.Viol("", fmt.Sprintf("RoundDigits[int16](%v, %d) = %v: whole numbers must stay as they are", i16, d, got), nil)
+				return
+			}
+			f32 := []float32{0.145, 1.005, 2.675, -0.145, 1234.5678, 0.1, 2.5, 3.4028e30}
+			want := make([]float32, len(f32))
+			m := math.Pow(10, float64(d))
+			for i, x := range f32 {
+				want[i] = float32(math.Round(float64(x)*m) / m)
+			}
+			if got := helper.ChanToSlice(helper.RoundDigits(helper.SliceToChan(f32), d)); !eqSlice(got, want) {
+				cc.Viol("", fmt.Sprintf("RoundDigits[float32](%v, %d) = %v, rounding the value to %d decimal places gives %v", f32, d, got, d, want), nil)
+				return
+			}
+			cc.Count("pipeline_runs", 3)
+		}
+		cc.Count("pipeline_runs", 2)
+		cc.Distinct("special-values")
+	})
 	ctx.Case("pure", func(cc *run.Case) {
 		gcd := func(a, b int) int {
 			for b != 0 {
